@@ -88,6 +88,8 @@ def run(R):
         r9(R, m)
     if R.want("C08.R10"):
         r10(R, m)
+    if R.want("C08.R11"):
+        r11(R, m)
     if R.want("C08.R7"):
         # "indexes ... within the hkl tolerance": the gate's count (cImageD11.score), the peaks claimed (score_and_assign via
         # getind), the refinement (score_and_refine) and the Python references use ONE predicate.  Shared with C06.R3 / R4.
@@ -1008,3 +1010,115 @@ def r10(R, m):
                         "that does not belong to the g-vectors" % (dotted(c.func), (dotted(c.func) or "").replace("math.a", "np.arc").replace("math.", "np.")))
         R.inst("C08.R10", "%s:%s partial math functions" % (REL, q))
     R.floor("C08.R10", 8)
+
+
+# --------------------------------------------------------------------------------------------------
+def _len_test(t, pol, names):
+    """+1: (t with polarity pol) implies len(X) > 0 for an X in names; -1: implies len(X) == 0; 0: neither"""
+    if isinstance(t, ast.BoolOp) and isinstance(t.op, ast.And) and pol:
+        for v in t.values:
+            r_ = _len_test(v, True, names)
+            if r_:
+                return r_
+        return 0
+    if isinstance(t, ast.UnaryOp) and isinstance(t.op, ast.Not):
+        return _len_test(t.operand, not pol, names)
+    if isinstance(t, ast.Call) and pyfacts.dotted(t.func) == "len" and t.args and nows(src(t.args[0])) in names:
+        return 1 if pol else -1
+    if isinstance(t, (ast.Name, ast.Attribute)) and nows(src(t)) in names:
+        return 1 if pol else -1
+    if isinstance(t, ast.Compare) and len(t.ops) == 1:
+        l_, op, r_ = t.left, t.ops[0], t.comparators[0]
+        if isinstance(r_, ast.Call) and pyfacts.dotted(r_.func) == "len":
+            l_, r_, op = r_, l_, FLIP.get(type(op), type(op))()
+        if isinstance(l_, ast.Call) and pyfacts.dotted(l_.func) == "len" and l_.args and nows(src(l_.args[0])) in names:
+            c = pyfacts.const_int(r_)
+            if c is None:
+                return 0
+            sat = lambda n_: {ast.Lt: n_ < c, ast.LtE: n_ <= c, ast.Gt: n_ > c, ast.GtE: n_ >= c, ast.Eq: n_ == c, ast.NotEq: n_ != c}.get(type(op))
+            if sat(0) is None:
+                return 0
+            e, ne = sat(0) == pol, all(sat(k) == pol for k in (1, 2, 50))
+            if ne and not e:
+                return 1
+            if e and not any(sat(k) == pol for k in (1, 2, 50)):
+                return -1
+    return 0
+
+
+def r11(R, m):
+    """filter_pairs drops every pair of hkls with |cos| >= 0.98, so the table getanglehkls hands to orient can be EMPTY for two rings
+    whose reflections are all nearly parallel (orthorhombic 15.3 x 2.2 x 2.5: (001) and (101) are 9.5 degrees apart) while indexer.find
+    still proposes pairs of peaks on those rings (it only discards cosines within 1e-5 of +-1).  orient must not index the table then,
+    and scorethem must not go on with the orientation of an earlier pair: an exception there aborts score_all_pairs and every ring
+    pair after it is never searched."""
+    R.rule("C08.R11", "unitcell.orient reads hab[b] / matrs[b] only where the angle table is known not to be empty (filter_pairs may keep no "
+                      "pair), and indexer.scorethem uses self.unitcell.UBI only when orient made an orientation")
+    um = pyfacts.module(R, UREL)
+    fp = um.func("filter_pairs")
+    apps = [c for c in ast.walk(fp) if isinstance(c, ast.Call) and isinstance(c.func, ast.Attribute) and c.func.attr == "append"]
+    cfgp = pyfacts.PyCFG(fp)
+    cond = [c for c in apps if any(True for _ in cfgp.guards(cfgp.node_of(pyfacts.containing_stmt(c))))]
+    R.shape(bool(apps) and len(cond) == len(apps), "C08.R11", UREL, "filter_pairs", "the premise: every append to the kept pairs is conditional (the table may be empty)")
+    fn = um.func("unitcell.orient")
+    tab = [a for a in ast.walk(fn) if isinstance(a, ast.Assign) and isinstance(a.targets[0], ast.Tuple) and isinstance(a.value, ast.Call)
+           and src(a.value.func) == "self.getanglehkls"]
+    R.shape(len(tab) == 1, "C08.R11", UREL, "unitcell.orient", "hab, c2ab, matrs = self.getanglehkls(ring1, ring2)")
+    names = set(e.id for e in tab[0].targets[0].elts if isinstance(e, ast.Name))
+    cfg = pyfacts.PyCFG(fn)
+    subs = [x for x in ast.walk(fn) if isinstance(x, ast.Subscript) and isinstance(x.value, ast.Name) and x.value.id in names and isinstance(x.ctx, ast.Load)
+            and not isinstance(x.slice, ast.Slice)]
+    R.shape(len(subs) >= 2, "C08.R11", UREL, "unitcell.orient", "the reads hab[b], matrs[b]")
+    n = 0
+    early = False
+    for r_ in [x for x in ast.walk(fn) if isinstance(x, ast.Return)]:
+        if any(_len_test(t, pol, names) == -1 for t, pol in cfg.guards(cfg.node_of(r_))):
+            early = True
+    seen = set()
+    for sub in subs:
+        st = pyfacts.containing_stmt(sub)
+        if cfg.node_of(st) is None:
+            continue                # inside the test of an if / while: the searchsorted neighbour tests, which short-circuit on i > 0
+        if any(_len_test(t, pol, names) == 1 for t, pol in cfg.guards(cfg.node_of(st))):
+            n += 1
+            R.inst("C08.R11", "orient: %s under a non-empty table" % src(sub))
+            continue
+        # not guarded: where does the index come from?
+        idx = sub.slice
+        loopdefs = [l for l in ast.walk(fn) if isinstance(l, ast.For) and isinstance(idx, ast.Name) and src(l.target) == idx.id]
+        R.shape(len(loopdefs) == 1 and isinstance(loopdefs[0].iter, ast.Name), "C08.R11", UREL, "unitcell.orient", "the loop 'for b in best' that supplies the index of %s" % src(sub))
+        bname = loopdefs[0].iter.id
+        for d in [a for a in ast.walk(fn) if isinstance(a, ast.Assign) and src(a.targets[0]) == bname]:
+            key = (d.lineno, sub.value.id)
+            if isinstance(d.value, ast.List) and len(d.value.elts) >= 1:
+                if d.lineno in seen:
+                    continue
+                seen.add(d.lineno)
+                n += 1
+                g_ok = any(_len_test(t, pol, names) == 1 for t, pol in cfg.guards(cfg.node_of(d)))
+                R.check(g_ok, "C08.R11", UREL, d.lineno, "unitcell.orient", "%s = %s indexes %s" % (bname, nows(src(d.value)), "/".join(sorted(set(s_.value.id for s_ in subs)))),
+                        "the nearest-cosine branch always yields one index, also when filter_pairs kept no pair of hkls for these rings (all within "
+                        "11 degrees of parallel): %s raises IndexError, indexer.scorethem re-raises and score_all_pairs stops before the remaining ring "
+                        "pairs are searched (cell 15.3 2.2 2.5 90 90 90, rings (001) / (101), a grain with unassigned peaks left on both)" % src(sub))
+            elif isinstance(d.value, ast.Subscript) or isinstance(d.value, ast.Call):
+                if d.lineno not in seen:
+                    seen.add(d.lineno)
+                    n += 1
+                    R.inst("C08.R11", "orient: %s = %s (a selection from the table: empty when the table is)" % (bname, src(d.value)[:60]))
+            else:
+                R.shape(False, "C08.R11", UREL, "unitcell.orient", "the definition %s = %s" % (bname, src(d.value)[:50]))
+    # scorethem: after an orient that can come back without an orientation, self.unitcell.UBI is only read when there is one
+    sc = method(m, "indexer.scorethem")
+    cfs = pyfacts.PyCFG(sc)
+    ub = [x for x in ast.walk(sc) if isinstance(x, ast.Attribute) and nows(src(x)) == "self.unitcell.UBI" and isinstance(x.ctx, ast.Load)]
+    R.shape(len(ub) >= 1, "C08.R11", REL, "indexer.scorethem", "the reads of self.unitcell.UBI")
+    if early:
+        for x in ub:
+            st = pyfacts.containing_stmt(x)
+            if "unitell" in src(st) or any("fitb4" in src(t) and pol for t, pol in cfs.guards(cfs.node_of(st))):
+                continue            # the dead fitb4 branch (FIXME in the source, NameError before anything else)
+            n += 1
+            R.check(any(_len_test(t, pol, {"self.unitcell.UBIlist"}) == 1 for t, pol in cfs.guards(cfs.node_of(st))), "C08.R11", REL, x.lineno, "indexer.scorethem",
+                    "self.unitcell.UBI read after orient", "orient returns without an orientation when the angle table is empty; scorethem then scores "
+                    "the matrix left over from the previous pair of peaks")
+    R.floor("C08.R11", 3)
